@@ -657,6 +657,22 @@ async fn user_separation_udp(c: &Creds, g: &mut Gen, findings: &mut Vec<(String,
     tokio::time::sleep(Duration::from_millis(50)).await;
     let _ = a.send_to(&mk(&ka, sid_a, 3, b"from-user-a-2"), server_addr()).await;
     tokio::time::sleep(Duration::from_millis(100)).await;
+    // B's datagram may be refused or relayed through an association of its own, but it must not travel on A's: not leave
+    // through the socket that carries A's datagrams (whatever the two users are called in the configuration)
+    {
+        let rides = world::with(|w| {
+            let to_target: Vec<_> = w.udp_sends.iter().filter(|s| s.node == rt::NODE_SERVER && s.to == target_sock()).collect();
+            let from_a: Vec<SocketAddr> = to_target.iter().filter(|s| s.len == b"from-user-a-1".len()).map(|s| s.from).collect();
+            to_target.iter().any(|s| s.len == b"from-user-b-with-a-session".len() && from_a.contains(&s.from))
+        });
+        if rides {
+            findings.push((
+                "datagram-rides-on-another-users-association".into(),
+                format!("user B's datagram, sealed with B's key but carrying user A's session id {sid_a:#x}, left the server through the socket of user A's association"),
+            ));
+            return;
+        }
+    }
     // B presents session ids *related* to A's - A's id combined with what B can read off the wire or knows (the identity
     // hashes of both users, halves and byte orders of them): a server that folds the user into its session key, or compares
     // only part of it, may put B's datagram into A's association. B's datagrams may be relayed (B is a registered user),
@@ -1149,8 +1165,34 @@ pub fn execute_c07(plan: &Plan) -> Outcome {
         let sock = UdpSocket::bind(SocketAddr::new(IpAddr::V4(Ipv4Addr::LOCALHOST), 0)).await.unwrap();
         for i in 0..attacks {
             if datagrams {
-                let d = match i % 4 {
-                    0 => {
+                let d = match i % 5 {
+                    4 if is_2022(&c.cipher) => {
+                        // well-formed, well-authenticated datagrams of one session whose packet ids are legal but sparse: a start near a
+                        // boundary of the replay window's ring, then forward jumps of every size class (inside a block, a few blocks,
+                        // most of the ring, more than the ring) and stragglers behind them
+                        let sid = g.next();
+                        let mut pid: u64 = *g.pick(&[0u64, 60, 8000, 8100, 8190, 16290, 24500, 1 << 20, 1 << 40, u64::MAX - 30000]);
+                        pid += g.below(130);
+                        let steps = g.range(2, 6);
+                        let mut last = Vec::new();
+                        for s in 0..steps {
+                            let back = s > 0 && g.chance(20);
+                            let step = *g.pick(&[1u64, 2, 63, 64, 65, 100, 129, 200, 1000, 4000, 8064, 8127, 8128, 8191, 8192, 8193, 9000, 20000]);
+                            let id = if back { pid.saturating_sub(step % 8200) } else { pid = pid.saturating_add(step).min(u64::MAX - 2); pid };
+                            let body = refimpl::ss2022::UdpBody { session_id: sid, packet_id: id, stream_type: 0, timestamp: unix_now(), client_session_id: None, padding: 0, addr: addr.clone(), payload: format!("sparse-id-{id}").into_bytes() };
+                            let mut n24 = [0u8; 24];
+                            g.fill(&mut n24);
+                            let pkt = if refimpl::ss2022::is_aes(&c.cipher) { refimpl::ss2022::udp_packet_aes(&c.cipher, &c.client_keys, &body) } else { refimpl::ss2022::udp_packet_chacha(&c.cipher, &c.psk, &n24, &body) };
+                            if s + 1 < steps {
+                                let _ = sock.send_to(&pkt, server_addr()).await;
+                                tokio::time::sleep(Duration::from_millis(5)).await;
+                            }
+                            last = pkt;
+                        }
+                        bump("sparse_packet_id_histories", 1);
+                        last
+                    }
+                    0 | 4 => {
                         let n = g.range(0, 120) as usize;
                         g.bytes(n)
                     }
